@@ -27,16 +27,38 @@ def run(rep):
         ct, depth = pg.LEGAL[k % 15]
         w, h = imggen.pick_dims(rng)
         tok, _ = imggen.gen(rng, ct, depth, w, h, rng.random() < 0.3, rng.choice(imggen.CLASSES), rng.choice(imggen.KEY_MODES))
-        png = e2e.png_from_token(rng, tok)
+        if k % 3 == 1:
+            # chunk-rich files: metadata that depends on the pixel format (bKGD, sBIT, hIST, sRGB, iCCP) must stay consistent with it
+            # wherever the clock strikes; reducible content so that the format actually changes
+            import chunkgen
+            tok, _ = imggen.gen(rng, ct, depth, max(w, 8), max(h, 8), rng.random() < 0.3, rng.choice(["fewcolors", "gray", "opaque", "hilo", "bitrep"]), "none")
+            png = chunkgen.gen_png(rng, tok=tok, dup=False)[0]
+        else:
+            png = e2e.png_from_token(rng, tok)
         mode = "alpha" if k % 4 == 3 else "lossless"
         o = e2e.rand_opts(rng, mode)
-        base.add(f"optlog {o} - {png.hex()}", png=png, opts=o, mode=mode, depth=depth, orig=png)
+        base.add(f"optlog {o} - {png.hex()}", png=png, opts=o, mode=mode, depth=depth, orig=png, rich=(k % 3 == 1))
     if not quick:
         for k in range(40):
             png = c04.apng_bytes(rng)
             o = e2e.rand_opts(rng, "lossless")
             base.add(f"optlog {o} - {png.hex()}", png=png, opts=o, mode="apng", depth=8, orig=png)
     out0 = e2e.run_pairs(rep, base, "optimize_from_memory (untimed)")
+    # a timeout that can never expire ("or never"): the largest representable durations behave exactly like no timeout
+    never = vlib.Cases()
+    for cid, m in list(base.meta.items())[: (6 if quick else 40)]:
+        for secs in ("18446744073709551615", "9223372036854775807", "4294967296"):
+            o = (m["opts"] + "," if m["opts"] != "-" else "") + "timeout=" + secs
+            never.add(f"optlog {o} - {m['png'].hex()}", src=cid, secs=secs)
+    rn = vlib.run_cases(impl, never.lines)
+    rep.evaluations += len(never.lines)
+    for nid, m in never.meta.items():
+        got = e2e.split_result(rn.get(nid))[0]
+        if got != out0[m["src"]][0]:
+            rep.violation("C13:never-expiring-timeout", f"a timeout of {m['secs']} s (it can never expire) changes the outcome: {vlib.short(got, 120)} "
+                          f"instead of {vlib.short(out0[m['src']][0], 60)}", {"cases": [m["cmd"]]})
+        else:
+            rep.nontriv(("never", nid))
     timed = vlib.Cases()
     ks = []
     for cid, m in base.meta.items():
@@ -46,7 +68,7 @@ def run(rep):
         ks.append(K)
         for k in range(K + 1):
             timed.add(f"optlog {m['opts']} {k} {m['png'].hex()}", png=m["png"], opts=m["opts"], mode=m["mode"], depth=m["depth"],
-                      orig=m["png"], k=k, K=K, untimed=res, must_succeed=True)
+                      orig=m["png"], k=k, K=K, untimed=res, must_succeed=True, rich=m.get("rich", False))
     rep.extra["consultations_per_case"] = {"min": min(ks), "max": max(ks), "mean": round(sum(ks) / max(1, len(ks)), 1)}
     # APNG frames consult the clock on worker threads (not replayable through the recorded answers): oracle only
     replayable = vlib.Cases()
@@ -69,6 +91,13 @@ def run(rep):
                 ob = bytes.fromhex(r[3:])
                 if ob != m["png"] and len(ob) >= len(m["png"]):
                     rep.violation("C13:larger", f"with expiry at check {m['k']} the output is larger than the input", {"cases": [m["cmd"]]})
+            if r.startswith("ok ") and m.get("rich"):
+                import pngvalid
+                vin, _ = pngvalid.validate(m["png"])
+                vout, _ = pngvalid.validate(bytes.fromhex(r[3:]))
+                if vout - vin:
+                    rep.violation("C13:malformed:" + sorted(vout - vin)[0], f"with expiry at check {m['k']} of {m['K']} the output violates {sorted(vout - vin)} "
+                                  f"which the input satisfies (options {m['opts']})", {"cases": [m["cmd"]]})
         if cases is replayable:
             c01.oracle(rep, cases, res, lambda m: "alphaeq" if m["mode"] == "alpha" else "eq", "C13",
                        "with the timeout expiring at some check the output no longer decodes to the input's pixels")
